@@ -768,6 +768,8 @@ def rule_graph_rewrite_simulation(ctx, R: str, title: str = None):
   inout = ([('A', [0], [1])], [0], [1, 0], 2)                                                                  # input is also an output
   tail = ([('A', [0], [1]), ('B', [1], [2]), ('C', [1, 2], [3])], [0], [1, 3], 4)                              # t1 is an output AND read by the last operator
   second = ([('P', [0], [1]), ('Q', [1], [2])], [0], [2], 3)
+  single = ([('S', [0], [1])], [0], [1], 2)
+  long5 = ([('L1', [0], [1]), ('L2', [1], [2]), ('L3', [2], [3]), ('L4', [3], [4]), ('L5', [4], [5])], [0], [5], 6)
   S = lambda spec, plan: ([spec], {(0, t): v for t, v in plan.items()})
   cases = [
       ('quantize the input of A',) + S(chain, {0: [('ADD_QUANTIZE', [0])]}),
@@ -792,6 +794,8 @@ def rule_graph_rewrite_simulation(ctx, R: str, title: str = None):
       ('weight quantized in place next to insertions',) + S(chain, {1: [('QUANTIZE_TENSOR', [0])], 2: [('ADD_QUANTIZE', [1])]}),
       ('chain on the graph input (first op inserted at position 0)',) + S(chain, {0: [('ADD_QUANTIZE', [0]), ('ADD_DEQUANTIZE', [0])], 2: [('ADD_QUANTIZE', [1])]}),
       ('two subgraphs, interleaved plan', [chain, second], {(0, 2): [('ADD_QUANTIZE', [1])], (1, 0): [('ADD_QUANTIZE', [0])], (1, 1): [('ADD_QUANTIZE', [1])], (1, 2): [('ADD_DEQUANTIZE', [-1]), ('ADD_QUANTIZE', [-1])], (0, 4): [('ADD_DEQUANTIZE', [2])], (0, 5): [('ADD_DEQUANTIZE', [-1])]}),
+      ('one operator next to five (very different lengths)', [long5, single], {(1, 0): [('ADD_QUANTIZE', [0])], (0, 2): [('ADD_QUANTIZE', [2])], (1, 1): [('ADD_DEQUANTIZE', [-1])], (0, 5): [('ADD_DEQUANTIZE', [-1])]}),
+      ('one operator before five (very different lengths)', [single, long5], {(0, 0): [('ADD_QUANTIZE', [0])], (1, 0): [('ADD_QUANTIZE', [0])], (0, 1): [('ADD_DEQUANTIZE', [-1])], (1, 3): [('ADD_QUANTIZE', [3]), ('ADD_DEQUANTIZE', [3])]}),
       ('two subgraphs, second first', [chain, second], {(0, 0): [('ADD_QUANTIZE', [0])], (1, 1): [('ADD_DEQUANTIZE', [1])], (0, 2): [('ADD_DEQUANTIZE', [1])], (1, 2): [('ADD_QUANTIZE', [-1])]}),
   ]
   rs.exhaustive = True
@@ -1334,11 +1338,16 @@ def _pipeline_multi(ctx, R, graphs, rules):
       continue
     store.setdefault(rx, []).append(c11._recipe(rx, opn, MM, {'srq': srq, 'drq': drq, 'wonly': wonly}[cfg]))  # pylint: disable=protected-access
   rm = Obj('recipe_manager:RecipeManager', {'_scope_configs': store})
-  calo = Obj(CAL, {'_flatbuffer_model': model(), '_tfl_interpreter': interp, '_tensor_content_map': {}, '_model_qsvs': {}, '_cached_output': []})
+  # as Quantizer.calibrate does for a multi-signature model: one call per signature, each with a NEW Calibrator on the float
+  # model, resumed from (a deep copy of) the result of the previous call
+  import copy as _copy  # pylint: disable=g-import-not-at-top
+  qsvs = {}
   for gi in range(len(graphs)):
+    calo = Obj(CAL, {'_flatbuffer_model': model(), '_tfl_interpreter': interp, '_tensor_content_map': {}, '_model_qsvs': _copy.deepcopy(qsvs), '_cached_output': []})
     o1 = it.outcomes(cal, [calo, [{'k': 1}, {'k': 2}], rm, f's{gi}'], copy_args=False)
     if len(o1) != 1 or o1[0].kind != 'return':
       return None, _stage_why(f'calibrate(signature of subgraph {gi})', o1)
+    qsvs = calo.fields['_model_qsvs']
   m = model()
   b2t = it.outcomes(ctx.repo.func('utils.tfl_flatbuffer_utils:buffer_to_tensors'), [m], copy_args=False)
   pg = Obj(PG, {'flatbuffer_model': model(), 'model_quant_results': {}, 'buffer_to_tensors': b2t[0].value if len(b2t) == 1 and b2t[0].kind == 'return' else {}})
@@ -1398,19 +1407,22 @@ def rule_subgraph_independence(ctx, R: str):
   A = ([('ax', 0), ('aw1', 1), ('ah', 0), ('aw2', 1), ('aout', 0)], [('afc1', 'fc', [0, 1], [2]), ('afc2', 'fc', [2, 3], [4])], [0], [4])
   B = ([('bx', 0), ('ba', 0), ('bw', 1), ('bh', 0), ('bout', 0)], [('babs1', 'abs', [0], [1]), ('bfc', 'fc', [1, 2], [3]), ('babs2', 'abs', [3], [4])], [0], [4])
   C = ([('cx', 0), ('cs', 0), ('cw', 1), ('cout', 0)], [('csm', 'sm', [0], [1]), ('cfc', 'fc', [1, 2], [3])], [0], [3, 1])
+  D = ([('dx', 0), ('dw', 1), ('dout', 0)], [('dfc', 'fc', [0, 1], [2])], [0], [2])
+  E = ([('ex', 0), ('e1', 0), ('ew', 1), ('e2', 0), ('e3', 0), ('e4', 0), ('eout', 0)],
+       [('eabs1', 'abs', [0], [1]), ('efc', 'fc', [1, 2], [3]), ('eabs2', 'abs', [3], [4]), ('esm', 'sm', [4], [5]), ('eabs3', 'abs', [5], [6])], [0], [6])
   rule_lists = {'FC static': [('.*', 'fc', 'srq')], 'everything static': [('.*', '*', 'srq')], 'FC dynamic': [('.*', 'fc', 'drq')], 'FC static in one subgraph only (regex)': [('bh;', 'fc', 'srq')]}
   alone = {}
   rs.exhaustive = True
   for lname, rules in rule_lists.items():
-    for gname, g in (('A', A), ('B', B), ('C', C)):
+    for gname, g in (('A', A), ('B', B), ('C', C), ('D', D), ('E', E)):
       m, why = _pipeline_multi(ctx, R, [g], rules)
       if m is None:
         ctx.check(R, False, tg.node, tg, f'{lname}: subgraph {gname} alone', why)
         alone[(lname, gname)] = None
         continue
       alone[(lname, gname)] = _subgraph_fingerprint(m, 0)
-    for combo in (('A', 'B'), ('B', 'A'), ('C', 'A', 'B')):
-      gs = [dict(A=A, B=B, C=C)[x] for x in combo]
+    for combo in (('A', 'B'), ('B', 'A'), ('C', 'A', 'B'), ('E', 'D'), ('D', 'E', 'A')):   # the last two: one operator next to five
+      gs = [dict(A=A, B=B, C=C, D=D, E=E)[x] for x in combo]
       m, why = _pipeline_multi(ctx, R, gs, rules)
       label = f'{lname}: model of subgraphs {combo}'
       if m is None:
